@@ -55,6 +55,9 @@ def _fn_tokens(prog, key, depth, seen):
             t = body.term(b)
             if t["k"] == "switch":
                 exprs.append(body.expr_of_operand(t["op"]))
+            if t["k"] == "call" and not t["dest"]["p"] and t["dest"]["l"] == 0 and not is_noise(t) and callee_path(t) not in prog.fns:
+                # an operator / std call as the tail expression (`a != b` is `PartialEq::ne(a, b)` writing the return place)
+                exprs.append(("call", callee_path(t), [body.expr_of_operand(a) for a in t["args"]], b))
             for st in body.blocks[b]["stmts"]:
                 if st["k"] == "=" and st["lhs"]["l"] == 0:
                     e_ = body.expr_of_rvalue(st["rv"])
@@ -334,6 +337,7 @@ def G1r(ctx, effects=None):
 # G2 - state writes: no write dropped from a path, no new condition on a write
 
 _ASSIGN_SITES = {}
+_PATH_TOKS = {}
 
 
 def _write_sites(prog):
@@ -363,6 +367,15 @@ def _write_sites(prog):
                         continue
             # (`x.f = v` and `match &mut x.f { .. }` / `x.f.as_mut()` are two spellings of updating the field)
             out.setdefault((w["fn"], "%s.%s" % (adt, fld)), []).append(w["bb"])
+            # the state read to *reach* the written field (the object handle, the store it lives in)
+            try:
+                st_ = w["stmt"]
+                pl_ = st_["rv"]["place"] if w["kind"] == "borrow_mut" else (st_.get("lhs") or st_.get("dest"))
+                if pl_ is not None:
+                    _PATH_TOKS.setdefault(id(prog), {}).setdefault("%s=>%s.%s" % (enclosing_fn(w["fn"]), adt, fld), set()).update(
+                        _tokens(prog, w["fn"], f.body.expr_of_place(pl_)))
+            except Exception:
+                pass
             if w["kind"] == "assign":
                 _ASSIGN_SITES.setdefault(id(prog), {}).setdefault((w["fn"], "%s.%s" % (adt, fld)), set()).add(w["bb"])
     for key, f in prog.fns.items():
@@ -455,6 +468,14 @@ def write_tables(prog):
                 toks |= _tokens(prog, fk, ge)
             for sb2 in body.control_deps(b):
                 toks |= _tokens(prog, fk, body.expr_of_operand(body.term(sb2)["op"]))
+            # the mutation performed by a std call that takes a predicate (`q.retain(|x| p(x))`): what the predicate reads decides
+            # which elements are changed, exactly as the guard of `if p(x) { q.remove(..) }` does
+            t_ = body.term(b)
+            if t_["k"] == "call" and not is_noise(t_):
+                for a_ in t_["args"]:
+                    ae_ = strip(body.expr_of_operand(a_))
+                    if ae_[0] == "agg" and isinstance(ae_[1], str) and "{closure#" in ae_[1] and ae_[1] in prog.fns:
+                        toks |= _fn_tokens(prog, ae_[1], 1, frozenset())
     nsites = {}
     # number of *assignments* per (function, field): a new assignment site is a new writer (judged elsewhere); a mutable borrow
     # that appears next to the known assignment is a condition of that writer and is judged here
@@ -479,6 +500,21 @@ def _replaced_field(prog, tok):
     ref_fields = {x[0] for x in ref[a]}
     cur_fields = {x["name"] for v in prog.adts[a]["variants"] for x in v["fields"]}
     return f not in ref_fields and bool(ref_fields - cur_fields)
+
+
+def _leads_to(prog, tok, adt):
+    """`X.f` is a handle to an `adt` value: the declared type of field f of X mentions adt (`Condvar.state: Ref<condvar::State>`)."""
+    if "." not in tok or tok.startswith("discr:"):
+        return False
+    a, f = tok.rsplit(".", 1)
+    d = prog.adts.get(a)
+    if not d:
+        return False
+    for v in d["variants"]:
+        for x in v["fields"]:
+            if x["name"] == f and adt in x.get("ty", ""):
+                return True
+    return False
 
 
 def G2(ctx, scopes=None):
@@ -522,6 +558,11 @@ def G2(ctx, scopes=None):
             continue
         # a field that replaced another one of its struct (representation change of private state) is not a new dependency
         new = [t for t in new if not _replaced_field(prog, t)]
+        # a condition on the written field itself, or on the handle through which the written object is reached, is an update of
+        # that object computed from its own content (`if let Some(i) = q.iter().position(..) { q.remove(i) }` for `q.retain(..)`),
+        # not a dependency on other state
+        path_toks = _PATH_TOKS.get(id(prog), {}).get(key, set())
+        new = [t for t in new if t != what and t not in path_toks and not _leads_to(prog, t, what.rsplit(".", 1)[0])]
         if new:
             ctx.bad("G2", fk, "the assignment of `%s` in %s now also depends on `%s`, which none of its conditions mentioned on the "
                     "reference tree: in these states the old value now stays in place" % (what, fk.split("::")[-1], new[0]),
